@@ -153,6 +153,8 @@ def run(ctx):
                     ctx.violation("squad/dtype", "SQuad(%s) returns %s for %s input" % (method, out.dtype, dtype), {"method": method})
     from vlib import layoutinv
     nlay = layoutinv.replay(ctx, ["squad:simpson", "squad:cspline"], "squad")
+    from vlib import bufferreuse
+    nlay += bufferreuse.replay(ctx, ["squad-instance:cspline", "squad-instance:simpson", "squad:cspline"], "squad")
     ctx.replayed = len(nodes) + len(snodes) + nlay
     ctx.notes.update(cases=n, weight_rows=len(nodes), shape_rows=len(snodes))
     ctx.exhaustive = True
